@@ -163,6 +163,8 @@ pub fn corpus(tier: &str) -> Vec<Doc> {
         let mut k = crate::seeds::kitchen_xsd();
         k.files[0].comps.push(crate::seeds::simple("Farbe", "string", vec![("enumeration", "Gr\u{fc}n"), ("enumeration", "Bleu p\u{e2}le"), ("enumeration", "\u{9752}\u{8272}")]));
         k.files[0].comps.push(crate::schema::Comp::Complex(crate::schema::ComplexType { name: "Beschreibung".into(), doc: Some("Gr\u{f6}\u{df}e \u{2014} \u{9752}\nzweite Zeile".into()), seq: Some(crate::schema::Seq::of(vec![crate::seeds::el("Wert", crate::schema::TypeRef::b("string"))])), ..Default::default() }));
+        // a type without a sequence keeps its documentation in the output
+        k.files[0].comps.push(crate::schema::Comp::Complex(crate::schema::ComplexType { name: "NurAttribute".into(), doc: Some("Ma\u{df}e in \u{b5}m \u{2014} \u{5bf8}\u{6cd5}\n\u{e9}t\u{e9} \u{1d11e}".into()), seq: None, attrs: vec![crate::schema::Attr { name: "breite".into(), ty: crate::schema::TypeRef::b("int"), required: false, value_constraint: None }], ..Default::default() }));
         v.push(Doc { label: "seed:non-ascii".into(), case: k.to_case() });
     }
     // a WSDL without any targetNamespace: reaches the emitters for components outside a namespace
